@@ -268,7 +268,16 @@ def _extra_external(interp, key: str):
              "collections.defaultdict": _c.defaultdict, "collections.ChainMap": _c.ChainMap, "contextlib.suppress": _suppress,
              "dataclasses.replace": interp._dc_replace, "copy.copy": interp._copy, "copy.deepcopy": interp._deepcopy,
              "typing.cast": lambda t, v: v, "collections.namedtuple": _BUILTINS["namedtuple"]}
-    return table.get(key)
+    if key in table:
+        return table[key]
+    # pure text helpers of the standard library (functions of their arguments only)
+    pure = {"xml.sax.saxutils": ("escape", "unescape", "quoteattr"), "html": ("escape", "unescape"), "shlex": ("quote",),
+            "urllib.parse": ("quote", "unquote")}
+    mod, _, name = key.rpartition(".")
+    if mod in pure and name in pure[mod]:
+        import importlib
+        return getattr(importlib.import_module(mod), name)
+    return None
 
 _BINOPS = {
     ast.Add: _op.add, ast.Sub: _op.sub, ast.Mult: _op.mul, ast.FloorDiv: _op.floordiv, ast.Mod: _op.mod,
@@ -454,6 +463,10 @@ class Interp:
             kwargs = {k: wrap(v) for k, v in kwargs.items()}
             if f is bool and len(args) == 1 and isinstance(args[0], GenList):
                 return True
+            if f is str and len(args) == 1 and not kwargs and isinstance(args[0], ExcVal) and args[0].attrs is None \
+                    and args[0].tname in BUILTIN_EXC_BASES:
+                a = args[0].args           # BaseException.__str__
+                return "" if not a else ((repr(a[0]) if args[0].tname == "KeyError" else str(a[0])) if len(a) == 1 else str(tuple(a)))
             if f is not _b_next and f is not _b_iter and any(isinstance(a, GenList) for a in args):
                 if f is len or (f is _BUILTINS.get("len")):
                     raise Raised(ExcVal("TypeError", ("object of type 'generator' has no len()",)), node)
@@ -600,12 +613,15 @@ class Interp:
                         if fname not in [f[0] for f in fields]:
                             fields.append((fname, ann.value, cc))
             bound = {}
-            if len(args) > len(fields):
+            opts = {f[0]: self._dc_field_opts(f[1]) for f in fields}
+            params = [f for f in fields if opts[f[0]].get("init", True) is not False]
+            positional = [f for f in params if not opts[f[0]].get("kw_only", self._dc_class_opts(f[2]).get("kw_only", False))]
+            if len(args) > len(positional):
                 raise Raised(ExcVal("TypeError", ("too many arguments",)), node)
-            for (fname, _, _), v in zip(fields, args):
+            for (fname, _, _), v in zip(positional, args):
                 bound[fname] = v
             for k, v in kwargs.items():
-                if k not in [f[0] for f in fields] or k in bound:
+                if k not in [f[0] for f in params] or k in bound:
                     raise Raised(ExcVal("TypeError", (f"bad keyword {k}",)), node)
                 bound[k] = v
             for fname, default, cc in fields:
@@ -956,10 +972,11 @@ class Interp:
                 base.kwargs[t.attr] = v
                 return
             if isinstance(base, (Obj, _NativeModel)):
-                hook = self.ext.get("setattr")
-                if hook:
-                    hook(base, t.attr, v)
-                base.attrs[t.attr] = v
+                if getattr(base, "cls", None) in self.prog.classes:
+                    pr = self._find_property(base.cls, t.attr)
+                    if pr is not None and not pr[2] and pr[1] is None and t.attr not in base.attrs:
+                        raise Raised(ExcVal("AttributeError", (f"property '{t.attr}' of '{base.cls}' object has no setter",)), t)
+                self.setattr(base, t.attr, v)
             else:
                 raise Unsupported(f"attribute store on {type(base).__name__}")
         elif isinstance(t, ast.Subscript):
@@ -1113,6 +1130,28 @@ class Interp:
         except Exception as e:
             raise Raised(ExcVal(type(e).__name__, e.args), node)
 
+    @staticmethod
+    def _const_kw(call: ast.Call, what: str) -> dict:
+        out = {}
+        for k in call.keywords:
+            if k.arg in ("compare", "init", "eq", "order", "frozen", "kw_only", "hash", "unsafe_hash"):
+                if not isinstance(k.value, ast.Constant):
+                    raise Unsupported(f"{what}: option {k.arg} is not a literal")
+                out[k.arg] = k.value.value
+        return out
+
+    def _dc_field_opts(self, default: Optional[ast.AST]) -> dict:
+        """Literal options of a `field(...)` default of a dataclass field (compare=, init=, kw_only=)."""
+        if isinstance(default, ast.Call) and (dotted(default.func) or "").split(".")[-1] == "field":
+            return self._const_kw(default, "dataclasses.field")
+        return {}
+
+    def _dc_class_opts(self, ci) -> dict:
+        for d in ci.node.decorator_list:
+            if isinstance(d, ast.Call) and (dotted(d.func) or "").split(".")[-1] == "dataclass":
+                return self._const_kw(d, "@dataclass")
+        return {}
+
     def py_eq(self, a, b, node=None, depth=0) -> bool:
         """Python's == for values that contain model objects: containers compare element-wise (identity first),
         dataclass instances field-wise, instances of classes with a program-defined __eq__ by interpreting it."""
@@ -1142,11 +1181,17 @@ class Interp:
                 if "dataclass" in ci.decorators:
                     if a.cls != b.cls:
                         return False
+                    if self._dc_class_opts(ci).get("eq") is False:
+                        return False                       # @dataclass(eq=False): identity, already handled above
                     names = []
                     for c in reversed(self.prog.mro(a.cls)):
                         cc = self.prog.classes.get(c)
                         if cc and "dataclass" in cc.decorators:
-                            names += [f for f in cc.ann_attrs if f not in names]
+                            for f, ann in cc.ann_attrs.items():
+                                if self._dc_field_opts(ann.value).get("compare", True) is False:
+                                    names = [x for x in names if x != f]        # field(compare=False): not part of __eq__
+                                elif f not in names:
+                                    names.append(f)
                     return all(self.py_eq(a.attrs.get(f), b.attrs.get(f), node, depth + 1) for f in names)
             return False
         if isinstance(a, (Obj, Sym, ClassRef)) or isinstance(b, (Obj, Sym, ClassRef)):
@@ -1277,6 +1322,52 @@ class Interp:
         base = self.eval(e.value, env)
         return self.getattr(base, e.attr, e, env)
 
+    def _find_property(self, cls: str, attr: str):
+        """(getter, setter, cached) of the property the class's MRO defines for `attr`, or None when the first class that
+        defines `attr` does not make it a property. `name = property(fget, fset)` assignments are understood too."""
+        for c in self.prog.mro(cls):
+            if f"{c}.{attr}" in self.ext or (c, attr) in self.class_state:
+                return None
+            ci = self.prog.classes.get(c)
+            if ci is None:
+                continue
+            if attr in ci.methods:
+                fi = ci.methods[attr]
+                if not fi.is_property:
+                    return None
+                return fi, ci.setters.get(attr), any("cached_property" in d for d in fi.decorators)
+            if attr in ci.attrs:
+                ex = ci.attrs[attr]
+                if isinstance(ex, ast.Call) and isinstance(ex.func, ast.Name) and ex.func.id == "property":
+                    names = [a.id if isinstance(a, ast.Name) else None for a in ex.args]
+                    kw = {k.arg: (k.value.id if isinstance(k.value, ast.Name) else None) for k in ex.keywords}
+                    g = kw.get("fget", names[0] if names else None)
+                    st = kw.get("fset", names[1] if len(names) > 1 else None)
+                    if g in ci.methods:
+                        return ci.methods[g], ci.methods.get(st), False
+                return None
+        return None
+
+    def _data_property(self, base, attr: str):
+        """The property (with a setter) that governs `base.attr`: a data descriptor takes precedence over the instance."""
+        if not getattr(base, "cls", None) or base.cls not in self.prog.classes:
+            return None
+        pr = self._find_property(base.cls, attr)
+        if pr is None or pr[2] or pr[1] is None:
+            return None
+        return pr
+
+    def setattr(self, base, attr: str, v) -> None:
+        """`base.attr = v` as the program would execute it (property setters included)."""
+        pr = self._data_property(base, attr)
+        if pr is not None:
+            self.call(pr[1], [base, v])
+            return
+        hook = self.ext.get("setattr")
+        if hook:
+            hook(base, attr, v)
+        base.attrs[attr] = v
+
     def _class_member(self, base, attr: str):
         """Method / property / class attribute of a model instance through the program's MRO; stubs registered
         as ``ext['Cls.attr']`` take precedence (they receive the instance as first argument)."""
@@ -1319,6 +1410,15 @@ class Interp:
             return lambda **kw: TupleObj([kw.get(f, v) for f, v in zip(base.fields, base)], cls=base.cls, fields=base.fields)
         if isinstance(base, NTClass) and attr in ("__name__", "_fields", "_make"):
             return base.name if attr == "__name__" else getattr(base, attr)
+        if attr == "__dict__" and isinstance(base, (_NativeModel, Obj)) and getattr(base, "cls", None) in self.prog.classes \
+                and "__dict__" not in base.attrs:
+            return base.attrs           # the instance dictionary of a program-class instance (live, as in CPython)
+        if isinstance(base, (_NativeModel, Obj)) and getattr(base, "cls", None):
+            pr = self._data_property(base, attr)
+            if pr is not None:
+                if attr in base.attrs:      # a value the harness put on the object stands for `obj.attr = value` executed beforehand
+                    self.call(pr[1], [base, base.attrs.pop(attr)])
+                return self.call(pr[0], [base])
         if isinstance(base, _NativeModel):
             if attr in base.attrs:
                 return base.attrs[attr]
